@@ -54,8 +54,9 @@ def Asg(targets, value):
     return {"k": "assign", "targets": list(targets), "value": value}
 
 
-def Def(name, params, body, decorators=()):
-    return {"k": "def", "name": name, "params": params, "body": list(body), "decorators": list(decorators)}
+def Def(name, params, body, decorators=(), annots=()):
+    """annots: annotation expressions, given to the positional parameters in order, the last one to the return"""
+    return {"k": "def", "name": name, "params": params, "body": list(body), "decorators": list(decorators), "annots": list(annots)}
 
 
 def Ret(v):
@@ -163,6 +164,12 @@ def catalogue():
     add("def-param-then-top-read", Def("tb_f", P(pos=["fr_reuset"]), [Ret(N("fr_reuset"))]), call_f, Asg(["tb_y"], N("fr_reuset")))
     add("lambda-param-then-top-read", Asg(["tb_l"], Lam(P(pos=["fr_reuseu"]), N("fr_reuseu"))), Asg(["tb_r"], Call(N("tb_l"), C())),
         Asg(["tb_y"], N("fr_reuseu")))
+    # further statement forms: starred assignment, del, annotations of a def, a decorator on a def inside a def
+    add("assign-starred", {"k": "assign", "targets": ["tb_a", "tb_b"], "value": N("fr_pair"), "starred": True})
+    add("del", Asg(["tb_a"], N("fr_val")), {"k": "del", "target": "tb_a"})
+    add("def-annotations", Def("tb_f", P(pos=["pa_pos"]), [Ret(N("pa_pos"))], annots=[N("fr_ann"), N("fr_annret")]), call_f)
+    add("def-in-def-decorator", Def("tb_f", P(), [Def("nl_g", P(), [Ret(N("fr_indef"))], decorators=[N("fr_deco")]), Ret(Call(N("nl_g")))]),
+        Asg(["tb_r"], Call(N("tb_f"))))
     add("expr-genexp", {"k": "expr", "value": Op(N("fr_fn"), Comp("gen", [N("nl_comp")], [Gen(["nl_comp"], N("fr_iter"))]))})
     return c
 
@@ -216,13 +223,14 @@ def src_expr(e):
     raise MachineryError("expr kind %r" % k)
 
 
-def src_params(p):
+def src_params(p, annots=()):
     out = []
     pos = p["posonly"] + p["pos"]
     nd = len(p["defaults"])
     for i, n in enumerate(pos):
         d = i - (len(pos) - nd)
-        out.append(n + ("=" + src_expr(p["defaults"][d]) if d >= 0 else ""))
+        ann = (": " + src_expr(annots[i])) if i < len(annots) - 1 else ""
+        out.append(n + ann + ("=" + src_expr(p["defaults"][d]) if d >= 0 else ""))
         if p["posonly"] and i == len(p["posonly"]) - 1:
             out.append("/")
     if p["vararg"]:
@@ -242,8 +250,12 @@ def src_block(ss, ind):
     for s in ss:
         k = s["k"]
         tg = lambda t: ", ".join(t) if len(t) == 1 else "(" + ", ".join(t) + ")"
-        if k == "assign":
+        if k == "assign" and s.get("starred"):
+            out.append(pad + "%s, *%s = %s" % (", ".join(s["targets"][:-1]), s["targets"][-1], src_expr(s["value"])))
+        elif k == "assign":
             out.append(pad + "%s = %s" % (tg(s["targets"]), src_expr(s["value"])))
+        elif k == "del":
+            out.append(pad + "del " + s["target"])
         elif k == "augassign":
             out.append(pad + "%s += %s" % (s["target"], src_expr(s["value"])))
         elif k == "expr":
@@ -280,7 +292,8 @@ def src_block(ss, ind):
         elif k == "def":
             for d in s["decorators"]:
                 out.append(pad + "@" + src_expr(d))
-            out.append(pad + "def %s(%s):" % (s["name"], src_params(s["params"])))
+            out.append(pad + "def %s(%s)%s:" % (s["name"], src_params(s["params"], s.get("annots", [])),
+                                                (" -> " + src_expr(s["annots"][-1])) if s.get("annots") else ""))
             out += src_block(s["body"], ind + 1)
         else:
             raise MachineryError("stmt kind %r" % k)
@@ -290,7 +303,7 @@ def src_block(ss, ind):
 def strip_form(obj):
     """the TLA+ side does not need the concrete import spelling"""
     if isinstance(obj, dict):
-        return {k: strip_form(v) for k, v in obj.items() if k not in ("form", "call")}
+        return {k: strip_form(v) for k, v in obj.items() if k not in ("form", "call", "starred")}
     if isinstance(obj, list):
         return [strip_form(x) for x in obj]
     return obj
